@@ -4,22 +4,41 @@ from sprops_main import *
 
 def confirm(check, r):
     shape = r['shape']
+    structural_fail = [x for x in r['sat'] if x and x.get('kind') == 'structural']
+    cases = []
+    # witnesses of the solver (keyframes + abstract position realised as a concrete timing and time + last start value)
+    for mv in [x for x in r['sat'] if x and 'kind' not in x][:2]:
+        mv = dict(mv)
+        for n, ty in TARGET_FIELDS[shape[0]]:
+            if f'ov2_{n}' in mv: mv[f'ov_{n}'] = mv[f'ov2_{n}']
+        cases.append(base_case(shape, mv, 'purity'))
+    # canned probes (structural failures carry no model)
     mv = {f'p{i}': f32bits((i + 1) / (shape[1] + 1)) for i in range(shape[1])}
     for i in range(shape[1]):
         for k, (n, ty) in enumerate(SUBJECT_FIELDS[shape[0]]):
             mv[f'v{i}_{n}'] = f32bits(8.0 * (i + 1)) if ty == 'f32' else 10 * (i + 1)
     for j, (n, ty) in enumerate(TARGET_FIELDS[shape[0]]):
         mv[f'ov_{n}'] = f32bits(200.0) if ty == 'f32' else 99
-    cases = []
-    for npos in (0.3, 0.6, 0.05):
-        mv['npos'] = f32bits(npos); mv['ntag'] = 1
-        cases.append(base_case(shape, mv, 'purity'))
+    for npos, rep, rev in ((0.3, False, False), (0.6, False, False), (0.05, False, False), (0.05, True, False), (0.05, False, True), (0.3, True, True)):
+        mv2 = dict(mv); mv2.update(npos=f32bits(npos), ntag=1, nrep=rep, nrev=rev)
+        cases.append(base_case(shape, mv2, 'purity'))
     nats = run_replay(cases, 'dev', 'replay_tl')
     for case, nat in zip(cases, nats):
-        if not (nat.get('idempotent') and nat.get('clone_same') and nat.get('restart_same') and nat.get('meta_same')):
-            check.report_violation(f'{shape[0]}_N{shape[1]}', None, f'shape {shape}: purity broken natively: {nat}', case); return True
-    check.inconclusive.append(f'C09 counterexample for {shape} ({r["sat"][:1]}) did not reproduce natively')
+        why = [k for k in ('idempotent', 'clone_same', 'restart_same', 'meta_same') if not nat.get(k)]
+        if nat.get('sub') and nat.get('other_prior') and not _same_animated(shape, nat['sub'], nat['other_prior']):
+            why.append(f'result depends on the prior contents of the target: {nat["sub"]} from one prior target, {nat["other_prior"]} from another')
+        if why:
+            check.report_violation(f'{shape[0]}_N{shape[1]}', None, f'shape {shape}: purity broken natively ({"; ".join(why)}): {nat}', case); return True
+    check.inconclusive.append(f'C09 counterexample for {shape} ({[x.get("kind", "model") for x in r["sat"][:1] if x]}) did not reproduce natively')
     return False
+
+
+def _same_animated(shape, a, b):
+    import re as _re
+    fa = dict(_re.findall(r'(\w+): ([-\w.e+]+)', a)); fb = dict(_re.findall(r'(\w+): ([-\w.e+]+)', b))
+    for k, (n, ty) in enumerate(SUBJECT_FIELDS[shape[0]]):
+        if any(shape[2][i][k] for i in range(shape[1])) and fa.get(n) != fb.get(n): return False
+    return True
 
 
 def main(tier):
